@@ -238,21 +238,20 @@ func unitOracle(unsigned bool, step float64, nunits int) func(v []string) string
 			}
 			prec = p
 		}
-		var n int64
+		var nf float64
 		if unsigned {
 			u, err := strconv.ParseUint(v[0], 10, 64)
 			if err != nil {
 				return ""
 			}
-			n = int64(u)
+			nf = float64(u)
 		} else {
 			i, err := strconv.ParseInt(v[0], 10, 64)
 			if err != nil {
 				return ""
 			}
-			n = i
+			nf = float64(i)
 		}
-		nf := float64(n)
 		rank := 0
 		for (nf <= -step || nf >= step) && rank < nunits-1 {
 			nf /= step
@@ -472,7 +471,8 @@ func atoi64(s string) (int64, bool) {
 	return v, err == nil
 }
 
-// ---- known-finding domains (decided from the input alone) ----
+// ---- domains of the (repaired) findings, decided from the input alone; kept so that the evidence
+// shows these inputs are still generated ----
 func kfBucket(v []string, cst []bool) string {
 	if len(v) != 2 || !cst[1] {
 		return ""
@@ -962,7 +962,9 @@ func c11Case(in c11In) Case {
 	}
 	if sp.kf != nil {
 		if id := sp.kf(vals, cst); id != "" {
-			tags = append(tags, "kf:"+id)
+			// all nine C11 findings are repaired: the domain is only counted (distribution), the
+			// case is checked at full strength
+			tags = append(tags, "domain-of-fixed:"+id)
 		}
 	}
 	kb, _ := json.Marshal(in)
